@@ -189,19 +189,23 @@ class FileResponseMixin:
         if unit != "bytes":
             raise MalformedRangeHeader("Only support bytes range")
 
-        try:
-            ranges = [
-                (
-                    int(_[0]) if _[0] else max_size - int(_[1]),
-                    int(_[1]) + 1
-                    if _[0] and _[1] and int(_[1]) < max_size
-                    else max_size,
-                )
-                for _ in re.findall(r"(\d*)-(\d*)", ranges_str)
-                if _ != ("", "")
-            ]
-        except ValueError:  # int() refuses numbers of more than 4300 digits
-            raise RangeNotSatisfiable(max_size)
+        def number(digits: str) -> int:
+            try:
+                return int(digits.lstrip("0") or "0")
+            except ValueError:
+                # more digits than int() accepts: a position beyond any file
+                return max_size + 1
+
+        ranges = [
+            (
+                number(_[0]) if _[0] else max_size - number(_[1]),
+                number(_[1]) + 1
+                if _[0] and _[1] and number(_[1]) < max_size
+                else max_size,
+            )
+            for _ in re.findall(r"(\d*)-(\d*)", ranges_str)
+            if _ != ("", "")
+        ]
 
         if len(ranges) == 0:
             raise MalformedRangeHeader("Range header: range must be requested")
